@@ -1163,7 +1163,8 @@ func judgeE2E(out *Outcome, p E2E, r *rig.Rig, conns []*e2eConn, all []*Op, stre
 			if o.Form == rig.FormCtxBuf {
 				enc := rig.EncodedLen(p.Cfg.Codec, rec.Reply)
 				want := enc > 0 && cap(rec.Buf) >= enc
-				if want != rec.BufUsed && svc.Aliasing(p.Cfg.Codec) {
+				// (an empty decoded reply has no address to tell where it lives)
+				if want != rec.BufUsed && svc.Aliasing(p.Cfg.Codec) && len(rec.Reply) > 0 {
 					out.add("C19", "C19/e2e/buffer-use", fmt.Sprintf("context buffer cap %d, encoded reply %d bytes: reply placed in the buffer=%v, expected %v (%s)", cap(rec.Buf), enc, rec.BufUsed, want, cfgs), nil)
 				}
 				// "safely ignored when not [large enough]": a reply that did not
